@@ -478,6 +478,23 @@ func c01registry(c *Check) {
 					n = funcCanonical(f)
 				}
 			}
+			// ... or be called by a per-type helper of the same package (initRouteSendAllMatch(...)):
+			// the one constructor that helper (and the helpers it calls) can reach
+			if g := call.Call.StaticCallee(); n == "" && g != nil && fnPkg(g) == fnPkg(ir) && g != ir {
+				ctors := map[string]bool{}
+				for _, h := range samePkgCallees(c.P, g) {
+					allInstrs(h, func(in2 ssa.Instruction) {
+						if cc := callCommon(in2); cc != nil && strings.HasPrefix(calleeName(cc), modPath+"/route.New") && !strings.HasSuffix(calleeName(cc), "Config") {
+							ctors[calleeName(cc)] = true
+						}
+					})
+				}
+				if len(ctors) == 1 {
+					for k := range ctors {
+						n = k
+					}
+				}
+			}
 			if n == "" {
 				return
 			}
